@@ -81,6 +81,66 @@ pub struct Exec {
     pub crafted: bool,
     /// the interrupted final mark had already completed the firmware slot (C06: nothing left to resume)
     pub completed_by_mark: bool,
+    /// session-level rank oracle (C15: completion exactly at full rank; refusal above the capacity)
+    pub rk: Option<RankOracle>,
+}
+
+pub struct RankOracle {
+    pub n: usize,
+    pub maxl: usize,
+    pub rx: Vec<bool>,
+    pub st2: bool,
+    pub unk: Vec<usize>,
+    pub gf: crate::d1::Gf2,
+    pub done: bool,
+}
+impl RankOracle {
+    fn words(bits: &[bool]) -> Vec<u64> {
+        let mut w = vec![0u64; bits.len() / 64 + 1];
+        for (i, b) in bits.iter().enumerate() {
+            if *b {
+                w[i / 64] |= 1 << (i % 64);
+            }
+        }
+        w
+    }
+    /// feed one accepted-or-refused delivery; returns Some(expected completion) or None when the oracle cannot judge
+    pub fn deliver(&mut self, idx1: u32) -> Option<bool> {
+        if idx1 == 0 {
+            return Some(self.done);
+        }
+        if self.done {
+            return Some(true);
+        }
+        let n = self.n;
+        let row: Vec<bool> = if idx1 as usize <= n {
+            (0..n).map(|i| i + 1 == idx1 as usize).collect()
+        } else {
+            crate::rows::parity_row(idx1 - n as u32, n, crate::rows::ffr())?
+        };
+        if !self.st2 {
+            if idx1 as usize <= n {
+                self.rx[idx1 as usize - 1] = true;
+            } else {
+                let unknown = self.rx.iter().filter(|b| !**b).count();
+                if unknown > self.maxl.min(2048) {
+                    return Some(false); // refused: no effect
+                }
+                self.st2 = true;
+                self.unk = (0..n).filter(|i| !self.rx[*i]).collect();
+                self.gf = crate::d1::Gf2::new(self.unk.len());
+            }
+        }
+        if self.st2 {
+            let red: Vec<bool> = self.unk.iter().map(|i| row[*i]).collect();
+            self.gf.add(Self::words(&red));
+        }
+        let full = if self.st2 { self.gf.rank() == self.unk.len() } else { self.rx.iter().all(|b| *b) };
+        if full {
+            self.done = true;
+        }
+        Some(full)
+    }
 }
 
 #[derive(Clone, Copy, Debug, PartialEq)]
@@ -146,6 +206,7 @@ impl Exec {
             last_fw: None,
             crafted: false,
             completed_by_mark: false,
+            rk: None,
         }
     }
 
@@ -237,12 +298,13 @@ impl Exec {
 
     fn counters(&self) -> String {
         match &self.u {
-            None => "recv=- ; total=- ; complete=-".into(),
+            None => "recv=- ; total=- ; complete=- ; rem=-".into(),
             Some(u) => {
                 let r = guarded(|| (u.received_firmware_segments(), u.total_firmware_segments(), u.is_complete()));
+                let rem = guarded(|| u.remaining_firmware_segments()).map(|v| v.to_string()).unwrap_or("PANIC".into());
                 match r {
-                    Ok((r, t, c)) => format!("recv={} ; total={} ; complete={}", r, t, c),
-                    Err(_) => "recv=PANIC ; total=- ; complete=-".into(),
+                    Ok((r, t, c)) => format!("recv={} ; total={} ; complete={} ; rem={}", r, t, c, rem),
+                    Err(_) => "recv=PANIC ; total=- ; complete=- ; rem=-".into(),
                 }
             }
         }
@@ -296,6 +358,7 @@ impl Exec {
                 self.last_fw = None;
                 self.crafted = false;
                 self.completed_by_mark = false;
+                self.rk = None;
                 o.stat("scenarios");
                 "ok".into()
             }
@@ -462,6 +525,11 @@ impl Exec {
                         if got < doc && !armed {
                             o.fail_key("C15", "capacity-below-documented", format!("start_update({}, {}) on slot size {}: parity capacity {} is below the documented {}", sz, n, self.slot, got, doc));
                         }
+                        self.rk = if !armed && !self.crafted && parses {
+                            Some(RankOracle { n: n as usize, maxl: got, rx: vec![false; n as usize], st2: false, unk: vec![], gf: crate::d1::Gf2::new(1), done: false })
+                        } else {
+                            None
+                        };
                         extra = format!(" ; fw={} ; par={} ; maxl={}", fw, par, self.f.word(par * self.slot + 12));
                     } else {
                         o.fail("C08", format!("start_update touched {} slots: {:?}", touched.len(), touched));
@@ -545,8 +613,30 @@ impl Exec {
                         self.complete_seen = true;
                     }
                 }
+                // C15: completion exactly at full rank (independent rows and GF(2) elimination); counters within bounds
+                if self.crashed || self.faulted || armed {
+                    self.rk = None;
+                }
+                if let (Some(rk), Ok(Ok(out))) = (self.rk.as_mut(), &r) {
+                    if d.len() == self.sz || self.sz == 0 {
+                        match rk.deliver(idx) {
+                            None => self.rk = None,
+                            Some(full) => {
+                                let complete = matches!(out, SegmentOutcome::FirmwareComplete);
+                                if complete != full {
+                                    let msg = format!("fragment {}: outcome {} but the fragments accepted so far {} full rank over the missing blocks (capacity {})", idx, res, if full { "have" } else { "do not have" }, rk.maxl);
+                                    o.fail_key("C15", "completion-vs-rank", msg);
+                                    self.rk = None;
+                                }
+                            }
+                        }
+                    }
+                }
+                if cnt.contains("rem=PANIC") {
+                    o.fail_key("C17", "remaining-counter-panic", "remaining_firmware_segments() panicked".into());
+                }
                 self.check_ops("handle_segment", true, o);
-                self.twin("seg", &res, o);
+                self.twin("seg", &format!("{} {}", res, cnt.split(" ; ").next().unwrap_or("")), o);
                 self.f.crash_at = None;
                 self.f.fail_mut_at = None;
                 self.f.fail_at = None;
@@ -684,8 +774,20 @@ impl Exec {
                         self.sess = Some((fw, par));
                     }
                     self.last_recv = None;
+                    if cnt.contains("rem=PANIC") {
+                        o.fail_key("C17", "remaining-counter-panic", "remaining_firmware_segments() of a recovered session panicked".into());
+                    }
+                    if let Some(u) = self.u.as_ref() {
+                        if let Ok((rv, tt)) = guarded(|| (u.received_firmware_segments(), u.total_firmware_segments())) {
+                            if rv > tt {
+                                o.fail_key("C17", "received-exceeds-total", format!("recovered session reports {} received of {}", rv, tt));
+                            }
+                        }
+                    }
+                    self.rk = None;
                 } else {
                     self.sess = None;
+                    self.rk = None;
                 }
                 self.life_apply_erases();
                 if res == "None" && !self.f.dead {
